@@ -321,8 +321,8 @@ def run_sock_check(prop, tier, seed):
         return rep.finish()
     rng = random.Random(seed)
     thorough = tier == "thorough"
-    cases = gen_cases(rng, 3000 if thorough else 350)
-    conc = ["ST 4 20000", "ST 8 %d" % (100000 if thorough else 20000), "UC 4 200", "UC 8 %d" % (1000 if thorough else 150)]
+    cases = gen_cases(rng, 40000 if thorough else 350)
+    conc = ["ST 4 20000", "ST 8 %d" % (2000000 if thorough else 20000), "UC 4 200", "UC 8 %d" % (5000 if thorough else 150)]
     try:
         impl = common.run_harness("sock", cases, shards=min(8, common.NCPU))
         # XW: which sends the OS refuses is not the model's to predict; the unbuffered ones are replayed in the model
